@@ -115,6 +115,20 @@ structure ULok (minNat : Int) (l : UL) (e : EffUL) : Prop where
   nat : (l.natTimeout = 0 ∧ e.natTimeout = (C18.natTimeoutDefault : Int)) ∨
         (l.natTimeout ≠ 0 ∧ natTooSmall l.natTimeout minNat = false ∧ e.natTimeout = l.natTimeout)
 
+theorem natEff_some {minNat nat v : Int} (h : natEff minNat nat = some v) :
+    (nat = 0 ∧ v = (C18.natTimeoutDefault : Int)) ∨ (nat ≠ 0 ∧ natTooSmall nat minNat = false ∧ v = nat) := by
+  unfold natEff at h
+  split at h
+  · rename_i hz
+    cases h
+    exact Or.inl ⟨hz, rfl⟩
+  · rename_i hnz
+    split at h
+    · cases h
+    · rename_i hs
+      cases h
+      exact Or.inr ⟨hnz, by simpa using hs, rfl⟩
+
 theorem checkUL_ok {minNat : Int} {l : UL} {e : EffUL} (h : checkUL minNat l = .ok e) : ULok minNat l e := by
   unfold checkUL at h
   split at h
@@ -132,18 +146,228 @@ theorem checkUL_ok {minNat : Int} {l : UL} {e : EffUL} (h : checkUL minNat l = .
           split at h
           · cases h
           · rename_i cc hcc
-            have hnet' : l.network = "udp" ∨ l.network = "udp4" ∨ l.network = "udp6" := by
-              simpa [or_assoc] using hnet
-            have hbm' : C18.batchModes.contains l.batchMode = true := by simpa using hbm
             split at h
-            · rename_i hz
+            · cases h
+            · rename_i nt hnt
+              have hnet3 : ¬l.network = "udp" → ¬l.network = "udp4" → l.network = "udp6" := by
+                simpa using hnet
+              have hnet' : l.network = "udp" ∨ l.network = "udp4" ∨ l.network = "udp6" := by
+                by_cases h1 : l.network = "udp"
+                · exact Or.inl h1
+                · by_cases h2 : l.network = "udp4"
+                  · exact Or.inr (Or.inl h2)
+                  · exact Or.inr (Or.inr (hnet3 h1 h2))
+              have hbm' : C18.batchModes.contains l.batchMode = true := by simpa using hbm
               cases h
-              exact ⟨hnet', ⟨hbm', rfl⟩, hrb, hsb, hcc, Or.inl ⟨hz, rfl⟩⟩
-            · rename_i hnz
-              split at h
-              · cases h
-              · rename_i hsmall
-                cases h
-                exact ⟨hnet', ⟨hbm', rfl⟩, hrb, hsb, hcc, Or.inr ⟨hnz, by simpa using hsmall, rfl⟩⟩
+              exact ⟨hnet', ⟨hbm', rfl⟩, hrb, hsb, hcc, natEff_some hnt⟩
+
+end SSV.Config
+
+namespace SSV.Config
+open SSV.Gen
+
+-- ---------------------------------------------------------------- firstErr
+
+theorem firstErr_none : ∀ {l : List (Bool × String)}, firstErr l = none → ∀ p ∈ l, p.1 = false
+  | [], _, p, hp => by cases hp
+  | (c, e) :: rest, h, p, hp => by
+    unfold firstErr at h
+    split at h
+    · cases h
+    · rename_i hc
+      cases hp with
+      | head => simpa using hc
+      | tail _ hp' => exact firstErr_none h p hp'
+
+-- ---------------------------------------------------------------- servers
+
+/-- what an accepted server went through -/
+structure ServerOK (s : Server) (e : EffServer) : Prop where
+  init : ∀ p ∈ s.initChecks, p.1 = false
+  tcp : ∀ l ∈ s.allTCP, checkTL l = .ok ()
+  udpc : ∀ p ∈ s.udpChecks, p.1 = false
+  udp : mapE (checkUL (minNatOf s.proto)) s.allUDP = .ok e.udp
+  upsk : (s.proto.isSS && !upskOK s.proto s.upsk) = false
+  eff : e = s.eff e.udp
+
+theorem checkServer_ok {s : Server} {e : EffServer} (h : checkServer s = .ok e) : ServerOK s e := by
+  unfold checkServer at h
+  split at h
+  · cases h
+  · rename_i h1
+    split at h
+    · cases h
+    · rename_i u h2
+      split at h
+      · cases h
+      · rename_i h3
+        split at h
+        · cases h
+        · rename_i uls h4
+          split at h
+          · cases h
+          · rename_i h5
+            cases h
+            refine ⟨firstErr_none h1, ?_, firstErr_none h3, h4, by simpa using h5, rfl⟩
+            intro l hl
+            obtain ⟨y, _, hy⟩ := mapE_ok_mem h2 l hl
+            cases y
+            exact hy
+
+/-- what an accepted client went through -/
+theorem checkClient_ok {c : Client} {e : EffClient} (h : checkClient c = .ok e) :
+    (∀ p ∈ c.checks, p.1 = false) ∧ e = c.eff := by
+  unfold checkClient at h
+  split at h
+  · cases h
+  · rename_i h1
+    cases h
+    exact ⟨firstErr_none h1, rfl⟩
+
+theorem checkRoute_ok {rt : Route} {resolvers tcp udp servers ds ps : List String}
+    (h : checkRoute rt resolvers tcp udp servers ds ps = .ok ()) :
+    ∀ p ∈ rt.checks resolvers tcp udp servers ds ps, p.1 = false := by
+  unfold checkRoute at h
+  split at h
+  · cases h
+  · rename_i h1
+    exact firstErr_none h1
+
+theorem checkRoutes_ok {resolvers tcp udp servers ds ps : List String} :
+    ∀ {rts : List Route}, checkRoutes resolvers tcp udp servers ds ps rts = .ok () →
+      ∀ rt ∈ rts, checkRoute rt resolvers tcp udp servers ds ps = .ok ()
+  | [], _, rt, hrt => by cases hrt
+  | a :: as, h, rt, hrt => by
+    unfold checkRoutes at h
+    split at h
+    · cases h
+    · rename_i ha
+      cases hrt with
+      | head => exact ha
+      | tail _ hrt' => exact checkRoutes_ok h rt hrt'
+
+-- ---------------------------------------------------------------- unique names
+
+theorem checkUnique_nodup {code : String} :
+    ∀ {ns seen : List String}, checkUnique code seen ns = .ok () → ns.Nodup ∧ ∀ n ∈ ns, n ∉ seen
+  | [], _, _ => ⟨List.nodup_nil, (fun _ h => by cases h)⟩
+  | n :: ns, seen, h => by
+    unfold checkUnique at h
+    split at h
+    · cases h
+    · rename_i hn
+      have ⟨hnd, hns⟩ := checkUnique_nodup h
+      have hn' : n ∉ seen := by simpa using hn
+      refine ⟨List.nodup_cons.mpr ⟨fun hmem => hns n hmem List.mem_cons_self, hnd⟩, ?_⟩
+      intro m hm
+      cases hm with
+      | head => exact hn'
+      | tail _ hm' => exact fun hs => hns m hm' (List.mem_cons_of_mem _ hs)
+
+theorem checkClients_ok :
+    ∀ {cs : List Client} {seen : List String} {es : List EffClient}, checkClients seen cs = .ok es →
+      (cs.map (·.name)).Nodup ∧ (∀ c ∈ cs, c.name ∉ seen) ∧ (∀ c ∈ cs, ∃ e ∈ es, checkClient c = .ok e)
+  | [], _, _, _ => ⟨List.nodup_nil, (fun _ h => by cases h), (fun _ h => by cases h)⟩
+  | c :: cs, seen, es, h => by
+    unfold checkClients at h
+    split at h
+    · cases h
+    · rename_i hn
+      split at h
+      · cases h
+      · rename_i ec hec
+        split at h
+        · cases h
+        · rename_i ecs hecs
+          cases h
+          have ⟨hnd, hns, hall⟩ := checkClients_ok hecs
+          have hn' : c.name ∉ seen := by simpa using hn
+          refine ⟨?_, ?_, ?_⟩
+          · simp only [List.map_cons]
+            refine List.nodup_cons.mpr ⟨?_, hnd⟩
+            intro hmem
+            obtain ⟨d, hd, hdn⟩ := List.mem_map.mp hmem
+            exact hns d hd (by rw [hdn]; exact List.mem_cons_self)
+          · intro d hd
+            cases hd with
+            | head => exact hn'
+            | tail _ hd' => exact fun hs => hns d hd' (List.mem_cons_of_mem _ hs)
+          · intro d hd
+            cases hd with
+            | head => exact ⟨ec, List.mem_cons_self, hec⟩
+            | tail _ hd' =>
+              obtain ⟨e, he, hce⟩ := hall d hd'
+              exact ⟨e, List.mem_cons_of_mem _ he, hce⟩
+
+theorem checkResolvers_nodup {tcp udp : List String} :
+    ∀ {rs : List Resolver} {seen : List String}, checkResolvers tcp udp seen rs = .ok () →
+      (rs.map (·.name)).Nodup ∧ (∀ r ∈ rs, r.name ∉ seen) ∧ (∀ r ∈ rs, checkResolver r tcp udp = .ok ())
+  | [], _, _ => ⟨List.nodup_nil, (fun _ h => by cases h), (fun _ h => by cases h)⟩
+  | r :: rs, seen, h => by
+    unfold checkResolvers at h
+    split at h
+    · cases h
+    · rename_i hn
+      split at h
+      · cases h
+      · rename_i hr
+        have ⟨hnd, hns, hall⟩ := checkResolvers_nodup h
+        have hn' : r.name ∉ seen := by simpa using hn
+        refine ⟨?_, ?_, ?_⟩
+        · simp only [List.map_cons]
+          refine List.nodup_cons.mpr ⟨?_, hnd⟩
+          intro hmem
+          obtain ⟨d, hd, hdn⟩ := List.mem_map.mp hmem
+          exact hns d hd (by rw [hdn]; exact List.mem_cons_self)
+        · intro d hd
+          cases hd with
+          | head => exact hn'
+          | tail _ hd' => exact fun hs => hns d hd' (List.mem_cons_of_mem _ hs)
+        · intro d hd
+          cases hd with
+          | head => exact hr
+          | tail _ hd' => exact hall d hd'
+
+end SSV.Config
+
+namespace SSV.Config
+open SSV.Gen
+
+-- ---------------------------------------------------------------- congruence of `validate` in the servers
+
+theorem map_name_eq {f : Server → Server} (hname : ∀ s, (f s).name = s.name) :
+    ∀ l : List Server, (l.map f).map (·.name) = l.map (·.name)
+  | [] => rfl
+  | a :: as => by
+    simp only [List.map_cons, hname, map_name_eq hname as]
+
+theorem isEmpty_map {α β : Type} (f : α → β) : ∀ l : List α, (l.map f).isEmpty = l.isEmpty
+  | [] => rfl
+  | _ :: _ => rfl
+
+/-- `validate` sees the servers only through their names and `checkServer` -/
+theorem validate_congr_servers (c : Config) (f : Server → Server)
+    (hname : ∀ s, (f s).name = s.name) (hchk : ∀ s ∈ c.servers, checkServer (f s) = checkServer s) :
+    validate { c with servers := c.servers.map f } = validate c := by
+  have h1 := isEmpty_map f c.servers
+  have h2 := map_name_eq hname c.servers
+  have h3 : mapE checkServer (c.servers.map f) = mapE checkServer c.servers := by
+    rw [mapE_map]
+    exact mapE_congr hchk
+  unfold validate effectiveClients
+  simp only [h1, h2, h3]
+
+-- ---------------------------------------------------------------- legacy fields ≡ listener arrays
+
+theorem allTCP_migrate (s : Server) : s.migrate.allTCP = s.allTCP := by
+  simp [Server.migrate, Server.allTCP]
+
+theorem allUDP_migrate (s : Server) : s.migrate.allUDP = s.allUDP := by
+  simp [Server.migrate, Server.allUDP]
+
+theorem checkServer_migrate (s : Server) : checkServer s.migrate = checkServer s := by
+  unfold checkServer Server.initChecks Server.udpChecks Server.eff
+  rw [allTCP_migrate, allUDP_migrate]
+  rfl
 
 end SSV.Config
